@@ -21,6 +21,7 @@ import Driver.Cli
 import Driver.Watch
 import Driver.Configure
 import Driver.Race
+import Driver.Crash
 open Lean
 
 def dispatch (j : Json) : Except String Json := do
@@ -42,6 +43,7 @@ def dispatch (j : Json) : Except String Json := do
   | "watch" => Driver.Watch.handle j
   | "reconf" => Driver.Configure.handle j
   | "race" => Driver.Race.handle j
+  | "crash" => Driver.Crash.handle j
   | _ => throw s!"unknown stream {stream}"
 
 partial def loop (hin hout : IO.FS.Stream) : IO Unit := do
